@@ -263,6 +263,21 @@ def run(rep, ctx):
     rep.rule("R03.8", "no nondeterminism source is reachable; the generator is built from `seed` (any seed gives the same partition only if nothing else varies)")
     with rep.guard("R03.8"):
         c01.r01_2(rep, M, "R03.8")
+        c01.call_local_state(rep, M, "R03.8", GC)
+    rep.rule("R03.9", "the search for the atoms inside a candidate cell covers every periodic image the cell reaches into (shared with C04)")
+    with rep.guard("R03.9"):
+        from . import c04 as _c04w
+        _c04w.within_basis(rep, M, "R03.9")
+    rep.rule("R03.10", "the stack is searched on a working copy whose atoms are inside the cell: missing cell vectors completed, atoms outside along a non-periodic axis always "
+             "trigger enlargement and centring (shared with C04; the stacking direction may be non-periodic)")
+    with rep.guard("R03.10"):
+        c01.r01_14(rep, M, "R03.10")
+        c01.r01_13(rep, M, "R03.10")
+        c01.r01_6(rep, M, "R03.10")
+    rep.rule("R03.11", "no function keeps results in module-level state or functools caches (answers do not depend on what the process analysed before)")
+    with rep.guard("R03.11"):
+        from .. import symrules as _SRms
+        _SRms.module_state(rep, ctx.model, "R03.11")
     rep.floor("R03.1", 8)
     rep.floor("R03.2", 3)
     rep.floor("R03.3", 3)
